@@ -6,7 +6,7 @@ from harness import edits as E
 from harness.tlc import from_atoms
 from harness.props import c05
 
-DOCS = ['\\a{x} b \\a{x} c', '\\begin{e}[\\o{1}]{r} t \\c{ \\d{2} } $m$ {g \\h{4}}\\end{e} z', '\\begin{itemize}\\item i \\j{5} \\item k\\end{itemize}',
+DOCS = ['\\s{a \\t{b \\u{c}}} \\begin{c}\n\\t{T}sub\\end{c}', '\\a{x} b \\a{x} c', '\\begin{e}[\\o{1}]{r} t \\c{ \\d{2} } $m$ {g \\h{4}}\\end{e} z', '\\begin{itemize}\\item i \\j{5} \\item k\\end{itemize}',
         '\\p{\\q{\\r}}\\p{\\q{\\r}}', '{\\a\\a}', '\\textbf{Hello} \\begin{v}q\\end{v} $x$']
 
 
@@ -18,8 +18,8 @@ def run(chk):
                 'replayed step by step on the real tree and after EVERY step the serialised text, search counts, text view and '
                 'descendants must equal the model\'s and the C03/C04 clauses are re-evaluated on the edited real tree. Random longer '
                 'histories chosen by the driver from the real tree\'s views are validated by TLC (EditsTrace). A case is a history.')
-    recs = E.explore(chk, 'depth2', [DOCS[0], DOCS[2], DOCS[4]] if quick else DOCS, 2, E.ALL_KINDS, names=('zz',), strs=('S t',),
-                     materials=(('X',), (6,)) if quick else (('X',), (1,), (5, 'Y')))
+    recs = E.explore(chk, 'depth2', [DOCS[0], DOCS[1], DOCS[3]] if quick else DOCS, 2, E.ALL_KINDS, names=('zz',), strs=('S t',),
+                     materials=(('X',), (7,)) if quick else (('X',), (1,), (5, 'Y'), (7,)))
     E.replay_all(chk, recs, 'C15')
     for r in recs[:1] + recs[-2:]:
         chk.sample({'source': from_atoms(r['i']), 'history': [E.show_op(e['op']) for e in r['h']], 'text_after': from_atoms(r['h'][-1]['obs']['t'])})
